@@ -482,6 +482,37 @@ def _last_index_test(cond, var, rng):
     return None
 
 
+def _first_index_test(cond, var, rng):
+    """For a loop `for var in range(a, b)`: 'butfirst' when cond holds on every iteration except the first (`if var:` with a == 0,
+    `var > a`, `var != a`, `var >= a + 1`), 'first' when it holds on the first iteration only, None otherwise."""
+    if rng is None:
+        return None
+    a, _b = rng
+    if isinstance(cond, ast.Name) and cond.id == var:
+        return "butfirst" if isinstance(a, ast.Constant) and a.value == 0 else None
+    if not isinstance(cond, ast.Compare) or len(cond.ops) != 1:
+        return None
+    l, op, r = cond.left, cond.ops[0], cond.comparators[0]
+    if norm(r) == var and norm(l) != var:
+        flip = {ast.Lt: ast.Gt, ast.Gt: ast.Lt, ast.LtE: ast.GtE, ast.GtE: ast.LtE}
+        l, r, op = r, l, flip.get(type(op), type(op))()
+    if norm(l) != var:
+        return None
+    a1 = ast.BinOp(left=a, op=ast.Add(), right=ast.Constant(value=1))
+    try:
+        if isinstance(op, (ast.Gt, ast.NotEq)) and affine.equal(r, a):
+            return "butfirst"
+        if isinstance(op, ast.GtE) and affine.equal(r, a1):
+            return "butfirst"
+        if isinstance(op, (ast.Eq, ast.LtE)) and affine.equal(r, a):
+            return "first"
+        if isinstance(op, ast.Lt) and affine.equal(r, a1):
+            return "first"
+    except affine.NotPoly:
+        return None
+    return None
+
+
 def specialise(node, facts, loop=None):
     """Term with every Alt whose condition is decided by `facts` resolved. `loop` = (var, rng, phase) while inside a peeled loop."""
     if isinstance(node, (Lit, Fmt, Sym)):
@@ -491,9 +522,14 @@ def specialise(node, facts, loop=None):
     if isinstance(node, Alt):
         v = truth(node.cond, facts)
         if v is None and loop is not None and node.cond is not None:
-            k = _last_index_test(node.cond, loop[0], loop[1])
-            if k is not None:
-                v = (k == "butlast") == (loop[2] == "butlast")
+            if loop[2] in ("butlast", "last"):
+                k = _last_index_test(node.cond, loop[0], loop[1])
+                if k is not None:
+                    v = (k == "butlast") == (loop[2] == "butlast")
+            else:
+                k = _first_index_test(node.cond, loop[0], loop[1])
+                if k is not None:
+                    v = (k == "butfirst") == (loop[2] == "butfirst")
         if v is True:
             return specialise(node.a, facts, loop)
         if v is False:
@@ -505,19 +541,25 @@ def specialise(node, facts, loop=None):
             butlast = Rep(ast.BinOp(left=node.count, op=ast.Sub(), right=one), specialise(node.body, facts, (node.var, node.rng, "butlast")))
             last = specialise(node.body, facts, (node.var, node.rng, "last"))
             return Seq([butlast, last])
+        if node.var and node.rng and _mentions_last_test(node.body, node.var, node.rng, _first_index_test):
+            one = ast.Constant(value=1)
+            first = specialise(node.body, facts, (node.var, node.rng, "first"))
+            butfirst = Rep(ast.BinOp(left=node.count, op=ast.Sub(), right=one), specialise(node.body, facts, (node.var, node.rng, "butfirst")))
+            return Seq([first, butfirst])
         return Rep(node.count, specialise(node.body, facts, loop), node.var, node.rng, node.it)
     return node
 
 
-def _mentions_last_test(node, var, rng) -> bool:
+def _mentions_last_test(node, var, rng, test=None) -> bool:
+    test = test or _last_index_test
     if isinstance(node, Alt):
-        if node.cond is not None and _last_index_test(node.cond, var, rng) is not None:
+        if node.cond is not None and test(node.cond, var, rng) is not None:
             return True
-        return _mentions_last_test(node.a, var, rng) or _mentions_last_test(node.b, var, rng)
+        return _mentions_last_test(node.a, var, rng, test) or _mentions_last_test(node.b, var, rng, test)
     if isinstance(node, Seq):
-        return any(_mentions_last_test(i, var, rng) for i in node.items)
+        return any(_mentions_last_test(i, var, rng, test) for i in node.items)
     if isinstance(node, Rep):
-        return _mentions_last_test(node.body, var, rng)
+        return _mentions_last_test(node.body, var, rng, test)
     return False
 
 
